@@ -10,7 +10,7 @@ import PolyVerif.Gen.Partition
     c10.prims   TOPO n size k  idx(k ints)        → "i:a,b,c" per delivered (index, primitive corner ids)              | panic
     c10.modify  NAME n size d  v(n*d hex)         → output array (n*d hex) of  f(i, v) = 2*v + i                        | panic
     c10.holds.visits_exact n k i1..ik             → the observed index multiset is exactly {0..n-1}, each once
-    c10.holds.visits_exact_emptystrip 0 k i1..ik  → same predicate, for the empty line strip (0 primitives)
+    c10.holds.same_tri_multiset WHAT na nb a.. b..  → the two triangle lists are equal as multisets
     c10.holds.same_output  k a1..ak b1..bk        → the two token lists are identical
 -/
 namespace Driver.C10
@@ -97,11 +97,13 @@ def handle (op : String) (args : List String) : Option String := do
   | "c10.holds.visits_exact", n :: _k :: is => do
       let n ← nat? n; let l ← is.mapM int?
       pure (boolStr (isRangePerm n l))
-  | "c10.holds.visits_exact_emptystrip", n :: _k :: is => do
-      let n ← nat? n
-      match is.mapM int? with
-      | some l => pure (boolStr (isRangePerm n l))
-      | none => pure "false"
+  | "c10.holds.same_tri_multiset", _what :: na :: nb :: rest => do
+      let na ← nat? na; let nb ← nat? nb
+      if rest.length ≠ na + nb then pure "false" else
+      -- equal as multisets of triangles (each triangle one token of three corner positions)
+      let a := (rest.take na).mergeSort (fun x y => decide (x ≤ y))
+      let b := (rest.drop na).mergeSort (fun x y => decide (x ≤ y))
+      pure (boolStr (a == b))
   | "c10.holds.same_output", k :: rest => do
       let k ← nat? k
       pure (boolStr (rest.length == 2 * k && rest.take k == rest.drop k))
